@@ -274,13 +274,25 @@ func (Dict) getBucket() fmt.Stringer {
 }
 
 func (d Dict) Count() int {
-	return d.m.Count()
+	// A key with several values holds one member of the set per value.
+	n := 0
+	for i := d.m.Range(); i.Next(); {
+		if values, is := i.Value().(multipleValues); is {
+			n += frozen.Set[Value](values).Count()
+		} else {
+			n++
+		}
+	}
+	return n
 }
 
 func (d Dict) Has(v Value) bool {
 	if key, value, matched := DictTupleMatcher()(v); matched {
 		if v, has := d.m.Get(key); has {
-			if dv, ok := v.(Value); ok {
+			switch dv := v.(type) {
+			case multipleValues:
+				return frozen.Set[Value](dv).Has(value)
+			case Value:
 				return value.Equal(dv)
 			}
 		}
@@ -310,6 +322,14 @@ func (d Dict) With(v Value) Set {
 func (d Dict) Without(v Value) Set {
 	if key, value, matched := DictTupleMatcher()(v); matched {
 		if v, has := d.m.Get(key); has {
+			if values, is := v.(multipleValues); is {
+				// one of several values of the key: the others stay
+				rest := frozen.Set[Value](values).Without(value)
+				if rest.Count() == frozen.Set[Value](values).Count() {
+					return d
+				}
+				return Dict{m: d.m.With(key, newMultipleValues(rest.Elements()...))}
+			}
 			if dv, ok := v.(Value); ok && value.Equal(dv) {
 				m := d.m.Without(key)
 				if m.IsEmpty() {
